@@ -171,6 +171,14 @@ pub fn make_settings(cfg: &Value, dir: &Path) -> Result<Settings, String> {
     if let Some(v) = cfg.get("ov_audit").and_then(|x| x.as_bool()) {
         ov.audit.mode = Some(v);
     }
+    // command-line style overlaps of the reporting options (`--accounts`, `--group-by`)
+    if let Some(a) = cfg.get("ov_accounts").and_then(|x| x.as_array()) {
+        ov.report.account_overlap =
+            Some(a.iter().filter_map(|x| x.as_str().map(|s| s.to_string())).collect());
+    }
+    if let Some(g) = cfg.get("ov_group_by").and_then(|x| x.as_str()) {
+        ov.report.group_by = Some(g.to_string());
+    }
     Settings::try_from(c, ov).map_err(|e| format!("settings: {e}"))
 }
 
